@@ -505,7 +505,11 @@ impl Tracer {
                             self.group_stop_interrupt(tcx, pid)?;
 
                             let mut state = register::debug::HardwareDebugState::current(pid)?;
-                            let reg = state.dr6.detect_and_flush().expect("should exists");
+                            let Some(reg) = state.dr6.detect_and_flush() else {
+                                // a trap of a watchpoint that has been removed in the meantime
+                                // (the status register was rewritten with the removal)
+                                return Ok(None);
+                            };
                             state.sync(pid)?;
                             let hit_type = WatchpointHitType::DebugRegister(reg);
                             Ok(Some(StopReason::Watchpoint(pid, current_pc, hit_type)))
